@@ -400,26 +400,43 @@ fn snell_values_case(ctx: &mut Ctx, name: &str, base: &SPDC, beam: &str, amax: f
   let steps = Steps2D((0.0, amax, nx), (len_um, 1.5 * len_um, 2));
   let det = format!("base={} pm_type={:?} p1={} p2=crystal.length_um x=(0.0,{:?},{}) y=({:?},{:?},2)", name, base.crystal_setup.pm_type, path, amax, nx, len_um, 1.5 * len_um);
   let swept = guard(|| SPDCIter::try_new(base.clone(), path.as_str(), "crystal.length_um", steps).map(|it| it.jsi_values(integ)));
-  let want: Option<Vec<f64>> = guard(|| {
+  // The by-hand internal angle comes from an INDEPENDENT Snell solve; the crate's own inverse is only required to
+  // reproduce the external angle within 1e-5 degrees (C13), i.e. the two internal angles may differ by ~2e-7 rad, and a
+  // sharply peaked spectrum turns that into more than 1e-6 of its value (seed 83: 1.1e-6).  The reference is therefore the
+  // RANGE of the by-hand value over internal angles within that tolerance.
+  let dti = 2.0e-7;
+  let want3: Option<Vec<[f64; 3]>> = guard(|| {
     (0..2 * nx)
       .map(|k| {
-        let mut s = base.clone();
         let ti = snell_bisect(base, beam, lin(0.0, amax, nx, k % nx)).unwrap_or(f64::NAN);
-        if beam == "signal" {
-          s.signal.set_theta_internal(ti * RAD);
-        } else {
-          s.idler.set_theta_internal(ti * RAD);
+        let mut out = [0.0f64; 3];
+        for (j, d) in [0.0, dti, -dti].iter().enumerate() {
+          let mut s = base.clone();
+          if beam == "signal" {
+            s.signal.set_theta_internal((ti + d) * RAD);
+          } else {
+            s.idler.set_theta_internal((ti + d) * RAD);
+          }
+          s.crystal_setup.length = lin(len_um, 1.5 * len_um, 2, k / nx) * MICRO * M;
+          out[j] = jsi_center(&s, integ);
         }
-        s.crystal_setup.length = lin(len_um, 1.5 * len_um, 2, k / nx) * MICRO * M;
-        jsi_center(&s, integ)
+        out
       })
       .collect()
   });
+  let want: Option<Vec<f64>> = want3.as_ref().map(|v| v.iter().map(|t| t[0]).collect());
   match (swept, want) {
     (Some(Ok(a)), Some(b)) => {
       let peak = b.iter().fold(0.0f64, |m, x| m.max(x.abs()));
       let close = |x: f64, y: f64| x == y || (x - y).abs() <= 1e-6 * x.abs().max(y.abs()) + 1e-9 * peak || (x.is_nan() && y.is_nan());
-      let bad = if a.len() != b.len() { Some(0) } else { (0..a.len()).find(|k| !close(a[*k], b[*k])) };
+      let w3 = want3.as_ref().unwrap();
+      let within = |k: usize| {
+        let t = w3[k];
+        let (lo, hi) = (t[0].min(t[1]).min(t[2]), t[0].max(t[1]).max(t[2]));
+        // within the range spanned by the tolerated internal angles (widened by the same relative / absolute slack)
+        close(a[k], b[k]) || (a[k] >= lo - (1e-6 * lo.abs() + 1e-9 * peak) && a[k] <= hi + (1e-6 * hi.abs() + 1e-9 * peak))
+      };
+      let bad = if a.len() != b.len() { Some(0) } else { (0..a.len()).find(|k| !within(*k)) };
       ctx.count(if b.iter().filter(|x| **x > 1e-3 * peak).count() * 2 > b.len() { "snell-values/mostly-lit" } else { "snell-values/mostly-dark" });
       match bad {
         None => ctx.s("C18.values", true, "sweep/jsi-values-external-angle", &det),
